@@ -163,6 +163,19 @@ class Gen:
         name = pick_name(rng, self.huge_names)
         if self.allow_alias and self.vecs and rng.random() < self.alias_prob:
             t, ids = rng.choice(self.vecs)
+            last = getattr(self, "last_sub", None)
+            if last is not None and rng.random() < 0.5:
+                # the same bit offsets as the sub-range declared last, but of ANOTHER vector (`pa => a(5 downto 2), pb => b(5 downto 2)`)
+                cands = [(t2, i2) for t2, i2 in self.vecs if t2[0] in ("LV", "BV") and tuple(i2) != last[2] and len(i2) > last[0] + 1]
+                if cands:
+                    t, ids = rng.choice(cands)
+                    lo, hi = len(ids) - 1 - last[0], len(ids) - 1 - last[1]
+                    sub = ids[lo:hi + 1]
+                    d, l, r = self.rand_range(len(sub))
+                    self.last_sub = (last[0], last[1], tuple(ids))
+                    if len(sub) == 1:
+                        return ("V", pk, name, ("L", "std_logic") if t[0] == "LV" else ("B", "bit"), sub)
+                    return ("V", pk, name, (t[0], t[1], d, l, r), sub)
             if t[0] in ("LV", "BV") and len(ids) >= 2 and rng.random() < 0.6:
                 # a sub-range of an earlier vector
                 lo = rng.randint(0, len(ids) - 1)
@@ -170,6 +183,7 @@ class Gen:
                 if hi - lo + 1 == len(ids):
                     return ("V", pk, name, t, ids)
                 sub = ids[lo:hi + 1]
+                self.last_sub = (len(ids) - 1 - lo, len(ids) - 1 - hi, tuple(ids))
                 if len(sub) == 1 and rng.random() < 0.5:
                     return ("V", pk, name, ("L", "std_logic") if t[0] == "LV" else ("B", "bit"), sub)
                 d, l, r = self.rand_range(len(sub))
